@@ -230,6 +230,21 @@ def _replay_cdist(cls, na, nb, sym_chain, prior=False):
                      for ch in chains for lp in cdrs) for j in range(nb)] for i in range(na)]
         if np.asarray(got).tolist() != want:
             return False, f"{cls}({kw}) cdist = {np.asarray(got).tolist()}, expected {want}; A={A.to_dict('list')} B={B.to_dict('list')} genes={table}"
+        # extra columns are not part of a row's TCR content: tables that already carry (stale / foreign) loop annotations and an unrelated
+        # column must give the same matrix - CDR1/CDR2 are those of the row's V allele, whatever else the table holds
+        table, restore = _patch_tt(inputs, cdrs != ("3",))
+        try:
+            AX, BX = A.copy(deep=True), B.copy(deep=True)
+            for X, fill in ((AX, "QQQQQ"), (BX, "")):
+                for col in ("CDR1A", "CDR2A", "CDR1B", "CDR2B"):
+                    X[col] = [fill + "W" * (r % 2) for r in range(len(X))]
+                X["note"] = list(range(len(X)))
+            gx = getattr(tcr_metric, cls)(**kw).calc_cdist_matrix(AX, BX)
+        finally:
+            restore()
+        if np.asarray(gx).tolist() != want:
+            return False, (f"{cls}({kw}) on the same rows carrying stale CDR1A/CDR2A/CDR1B/CDR2B columns and an unrelated column = {np.asarray(gx).tolist()}, "
+                           f"expected {want} (loops of the row's V allele); A={A.to_dict('list')} B={B.to_dict('list')} genes={table}")
         # real-library probe for the argument-record part: weights large enough that one edit exceeds 255 must not wrap
         table, restore = _patch_tt(inputs, cdrs != ("3",))
         try:
